@@ -301,8 +301,26 @@ func (r *transport) handleCacheHit(
 	respNoCacheFieldsRaw, hasRespNoCache := ccResp.NoCache()
 	respNoCacheFieldsSeq, isRespNoCacheQualified := respNoCacheFieldsRaw.Value()
 
-	// RFC 8246: If response is fresh and immutable, always serve from cache unless request has no-cache
-	if !freshness.IsStale && ccResp.Immutable() && !ccReq.NoCache() {
+	// Conditions under which the stored response must not be used without
+	// successful validation (RFC 9111 §4.2.4, §5.2.1.1, §5.2.1.4, §5.2.2.2, §5.2.2.4).
+	// They are evaluated before anything that permits reuse, so that they are not
+	// overridden by max-stale, only-if-cached, immutable or stale-while-revalidate.
+	staleByLifetime := freshness.IsStale || freshness.Age.Value >= freshness.UsefulLife // ignores any max-stale allowance
+	reqMaxAge, hasReqMaxAge := ccReq.MaxAge()
+	mustValidate := (hasRespNoCache && !isRespNoCacheQualified) || // Unqualified no-cache: must revalidate before serving from cache
+		(staleByLifetime && ccResp.MustRevalidate()) ||
+		ccReq.NoCache() ||
+		(freshness.IsStale && hasReqMaxAge && freshness.Age.Value >= reqMaxAge) // older than the request allows
+
+	if ccReq.OnlyIfCached() {
+		// RFC 9111 §5.2.1.7: never contact the origin; answer from the cache if the
+		// stored response may be used without validation, otherwise 504.
+		if mustValidate {
+			r.logger.LogCacheMiss(req, urlKey, internal.MiscFunc(func() internal.Misc {
+				return internal.Misc{CCReq: ccReq, CCResp: ccResp, Refs: refs, RefIndex: refIndex}
+			}))
+			return make504Response(req)
+		}
 		return r.serveFromCache(
 			req,
 			urlKey,
@@ -313,31 +331,28 @@ func (r *transport) handleCacheHit(
 		)
 	}
 
-	if (freshness.IsStale && ccResp.MustRevalidate()) ||
-		(hasRespNoCache && !isRespNoCacheQualified) { // Unqualified no-cache: must revalidate before serving from cache
-		goto revalidate
-	}
+	if !mustValidate {
+		// Fresh (RFC 8246 immutable included), or stale within the request's max-stale allowance.
+		if !freshness.IsStale {
+			return r.serveFromCache(
+				req,
+				urlKey,
+				stored,
+				freshness,
+				isRespNoCacheQualified,
+				respNoCacheFieldsSeq,
+			)
+		}
 
-	if ccReq.OnlyIfCached() || (!freshness.IsStale && !ccReq.NoCache()) {
-		return r.serveFromCache(
-			req,
-			urlKey,
-			stored,
-			freshness,
-			isRespNoCacheQualified,
-			respNoCacheFieldsSeq,
-		)
-	}
-
-	if swr, swrValid := ccResp.StaleWhileRevalidate(); freshness.IsStale && swrValid {
-		age := freshness.Age.Value + r.clock.Since(freshness.Age.Timestamp)
-		staleFor := age - freshness.UsefulLife
-		if staleFor >= 0 && staleFor < swr {
-			return r.handleStaleWhileRevalidate(req, stored, urlKey, freshness, ccReq)
+		if swr, swrValid := ccResp.StaleWhileRevalidate(); swrValid {
+			age := freshness.Age.Value + max(r.clock.Since(freshness.Age.Timestamp), 0)
+			staleFor := age - freshness.UsefulLife
+			if staleFor >= 0 && staleFor < swr {
+				return r.handleStaleWhileRevalidate(req, stored, urlKey, freshness, ccReq)
+			}
 		}
 	}
 
-revalidate:
 	req = withConditionalHeaders(req, stored.Data.Header)
 	resp, start, end, err := r.roundTripTimed(req)
 	ctx := internal.RevalidationContext{
